@@ -45,10 +45,24 @@ func (g *ogen) escape(s string) string {
 	switch g.esc {
 	case "nil":
 		return s
+	case "brackets":
+		// the test escaper wraps every Write; strings are written in 4096-byte chunks, "" not at all
+		out := ""
+		for len(s) > 0 {
+			n := len(s)
+			if n > 4096 {
+				n = 4096
+			}
+			out += "[" + s[:n] + "]"
+			s = s[n:]
+		}
+		return out
 	default:
 		return htmlEsc(s)
 	}
 }
+
+func (g *ogen) E(x interface{}) string { return g.escape(fmt.Sprint(x)) }
 
 func (g *ogen) freshVar() string { g.nvar++; return fmt.Sprintf("v%d", g.nvar) }
 
@@ -87,15 +101,15 @@ func (g *ogen) print() onode {
 		}
 		sortStrings(names)
 		n := r.Pick(names)
-		return onode{src: "{{" + n + "}}", out: fmt.Sprint(g.intVals[n]), failOff: -1}
+		return onode{src: "{{" + n + "}}", out: g.escape(fmt.Sprint(g.intVals[n])), failOff: -1}
 	case 4:
 		lit := r.Pick([]string{"<b>", "a&b", "it's", `q"q`, "plain"})
 		return onode{src: "{{ " + fmt.Sprintf("%q", lit) + " }}", out: g.escape(lit), failOff: -1}
 	case 5:
-		return onode{src: "{{ true }}{{ false }}", out: "truefalse", failOff: -1}
+		return onode{src: "{{ true }}{{ false }}", out: g.escape("true") + g.escape("false"), failOff: -1}
 	case 6:
 		a, b := r.Intn(9), r.Intn(9)
-		return onode{src: fmt.Sprintf("{{ ia + %d * ib }}", b), out: fmt.Sprint(g.intVals["ia"] + b*g.intVals["ib"]), failOff: -1}
+		return onode{src: fmt.Sprintf("{{ ia + %d * ib }}", b), out: g.escape(fmt.Sprint(g.intVals["ia"] + b*g.intVals["ib"])), failOff: -1}
 		_ = a
 	}
 	return onode{src: "{{ sa + sb }}", out: g.escape(g.strVals["sa"] + g.strVals["sb"]), failOff: -1}
@@ -190,7 +204,7 @@ func (g *ogen) node(d int, allowFail bool) onode {
 			out := ""
 			src := "{{range i, x := li}}[{{i}}:{{x}}]" + body.src + "{{end}}"
 			for i, x := range []int{3, 0, 7} {
-				out += fmt.Sprintf("[%d:%d]", i, x) + body.out
+				out += "[" + g.E(i) + ":" + g.E(x) + "]" + body.out
 			}
 			return onode{src: src, out: out, failOff: -1}
 		case 1:
@@ -202,7 +216,7 @@ func (g *ogen) node(d int, allowFail bool) onode {
 		case 2:
 			out := ""
 			for i := 0; i < 3; i++ {
-				out += fmt.Sprint(i+2) + body.out
+				out += g.E(i+2) + body.out
 			}
 			return onode{src: "{{range ints(2, 5)}}{{.}}" + body.src + "{{else}}" + g.dead(0).src + "{{end}}", out: out, failOff: -1}
 		case 3:
@@ -211,7 +225,7 @@ func (g *ogen) node(d int, allowFail bool) onode {
 		default:
 			out := ""
 			for i := range []int{0, 1, 2} {
-				out += fmt.Sprint(i) + body.out
+				out += g.E(i) + body.out
 			}
 			return onode{src: "{{range k := li}}{{k}}" + body.src + "{{end}}", out: out, failOff: -1}
 		}
@@ -226,7 +240,7 @@ func (g *ogen) node(d int, allowFail bool) onode {
 		g.strVals["sh"] = "inner"
 		a := g.seq(d-1, false)
 		g.strVals["sh"] = outer
-		return onode{src: "{{if sh := \"inner\"; true}}{{sh}}" + a.src + "{{end}}{{sh}}", out: "inner" + a.out + g.escape(outer), failOff: -1}
+		return onode{src: "{{if sh := \"inner\"; true}}{{sh}}" + a.src + "{{end}}{{sh}}", out: g.E("inner") + a.out + g.escape(outer), failOff: -1}
 	case 7: // try: all or nothing
 		body := g.seq(d-1, false)
 		if r.Bool() {
@@ -241,7 +255,7 @@ func (g *ogen) node(d int, allowFail bool) onode {
 			// a failing range/if-let/yield-content inside the try must leave no trace
 			f = onode{src: "{{range li}}{{q9 := 1}}{{ nope }}{{end}}", out: "", failOff: 0}
 			probe = "[{{ia}}|{{isset(q9)}}]"
-			probeOut = fmt.Sprintf("[%d|false]", g.intVals["ia"])
+			probeOut = "[" + g.E(g.intVals["ia"]) + "|" + g.E("false") + "]"
 		}
 		return cat(wrap("{{try}}"+body.src+f.src+g.dead(0).src+"{{catch"+cv+"}}", c, "{{end}}"), onode{src: probe, out: probeOut, failOff: -1})
 	case 8: // include: renders in place
@@ -262,9 +276,9 @@ func (g *ogen) node(d int, allowFail bool) onode {
 		g.p.files[name] = body.src + fmt.Sprintf("{{return %d}}", rv+1) + r.Pick([]string{"", "{{if true}}y{{end}}", "{{range el}}{{end}}"}) + fmt.Sprintf("{{if zero}}{{return 99}}{{end}}")
 		v := g.freshVar()
 		if r.Bool() {
-			return onode{src: fmt.Sprintf("{{ %s := exec(%q) }}<{{%s}}>", v, name, v), out: fmt.Sprintf("<%d>", rv+1), failOff: -1}
+			return onode{src: fmt.Sprintf("{{ %s := exec(%q) }}<{{%s}}>", v, name, v), out: "<" + g.E(rv+1) + ">", failOff: -1}
 		}
-		return onode{src: fmt.Sprintf("<{{ exec(%q) }}>", name), out: fmt.Sprintf("<%d>", rv+1), failOff: -1}
+		return onode{src: fmt.Sprintf("<{{ exec(%q) }}>", name), out: "<" + g.E(rv+1) + ">", failOff: -1}
 	case 10: // block defined in the imported library, yielded with arguments / content
 		g.nblock++
 		bn := fmt.Sprintf("blk%d", g.nblock)
@@ -274,13 +288,13 @@ func (g *ogen) node(d int, allowFail bool) onode {
 		// `yield content` renders when the caller supplied none is not fixed by the property
 		if r.Intn(3) == 2 {
 			g.lib += "{{block " + bn + "(p, q=\"dq\")}}(" + body.src + "{{p}}{{q}}{{yield content}}){{end}}"
-			return onode{src: "{{yield " + bn + "(p=2) content}}" + content.src + "{{end}}", out: "(" + body.out + "2dq" + content.out + ")", failOff: -1}
+			return onode{src: "{{yield " + bn + "(p=2) content}}" + content.src + "{{end}}", out: "(" + body.out + g.E(2) + g.E("dq") + content.out + ")", failOff: -1}
 		}
 		g.lib += "{{block " + bn + "(p, q=\"dq\")}}(" + body.src + "{{p}}{{q}}){{end}}"
 		if r.Bool() {
-			return onode{src: "{{yield " + bn + "(p=ia)}}", out: "(" + body.out + fmt.Sprint(g.intVals["ia"]) + "dq)", failOff: -1}
+			return onode{src: "{{yield " + bn + "(p=ia)}}", out: "(" + body.out + g.E(g.intVals["ia"]) + g.E("dq") + ")", failOff: -1}
 		}
-		return onode{src: "{{yield " + bn + "(q=sa, p=1)}}", out: "(" + body.out + "1" + g.escape(g.strVals["sa"]) + ")", failOff: -1}
+		return onode{src: "{{yield " + bn + "(q=sa, p=1)}}", out: "(" + body.out + g.E(1) + g.escape(g.strVals["sa"]) + ")", failOff: -1}
 	case 11: // includeIfExists
 		if r.Bool() {
 			return onode{src: `{{if includeIfExists("/nonexistent.jet")}}DEAD{{else}}N{{end}}`, out: "N", failOff: -1}
@@ -291,7 +305,7 @@ func (g *ogen) node(d int, allowFail bool) onode {
 		g.p.files[name] = body.src
 		return onode{src: fmt.Sprintf("{{ includeIfExists(%q) }}", name), out: body.out, failOff: -1}
 	case 12: // isset
-		return onode{src: "{{ isset(m.k) }}{{ isset(m.nokey) }}{{ isset(np) }}{{ isset(zero, e, ff) }}{{ isset(st.P.P.A) }}{{ m.nokey | isset }}", out: "truefalsefalsetruefalsefalse", failOff: -1}
+		return onode{src: "{{ isset(m.k) }}{{ isset(m.nokey) }}{{ isset(np) }}{{ isset(zero, e, ff) }}{{ isset(st.P.P.A) }}{{ m.nokey | isset }}", out: g.E("true") + g.E("false") + g.E("false") + g.E("true") + g.E("false") + g.E("false"), failOff: -1}
 	}
 	return g.text()
 }
@@ -300,7 +314,7 @@ func (g *ogen) node(d int, allowFail bool) onode {
 // the properties demand.
 func genOracleProgram(r *h.Rand, flavor string) (*prog, *sx.Sexp) {
 	p := newProg(r)
-	p.esc = pickW(r, "html", 3, "nil", 1)
+	p.esc = pickW(r, "html", 4, "nil", 1, "brackets", 1)
 	g := &ogen{r: r, p: p, esc: p.esc, flavor: flavor, strVals: map[string]string{}, intVals: map[string]int{}}
 	nonEmpty := []string{}
 	for _, x := range specialStrings {
